@@ -29,7 +29,8 @@ RULE = ("arrival sequences of 60-160 events over <= 40 distinct reliable packet 
         "retransmissions (same id, RESENT flag or not), reordered older ids, acks for the client's own reliable sends in both "
         "forms (appended to any packet, PacketAck block, PacketAck + appended), acks for ids never sent, clock advances of "
         "1 s / 3 s with resend_unacked(); subscribers at session and region level, named and wildcard. quick 8 x 60 "
-        "sequences, thorough 16 x 3000. distinct_nontrivial = distinct event sequences (by kind and packet id) + distinct (kind, duplicate?, subscriber level) classes")
+        "sequences, thorough 16 x 3000. distinct_nontrivial = distinct event sequences (by kind and packet id) + distinct (kind, duplicate?, subscriber level) classes"
+        ". Round-5 additions: PacketAck without blocks that only carries appended acks (what a proxy leaves after taking its own ids out); the client alternates between deferred and eager body parsing")
 ASSUMPTIONS = [
     "at most 40 distinct reliable ids per ordinary run; separate long runs send more reliable packets than the de-duplication window holds and then retransmit packets that are still inside it (nothing is demanded for packets that left the window)",
     "the peer's messages are template messages allowed over UDP; the session manager is a stub (no HTTP)",
@@ -56,6 +57,9 @@ class StubManager:
 
 def make_client():
     mgr = StubManager()
+    # the client's two parsing configurations (message bodies on demand / eagerly), alternating between sequences
+    CURRENT["n_clients"] = CURRENT.get("n_clients", 0) + 1
+    mgr.settings.ENABLE_DEFERRED_PACKET_PARSING = bool(CURRENT["n_clients"] % 2)
     session = HippoClientSession(UUID(int=1), UUID(int=2), UUID(int=3), 1234, session_manager=mgr)
     session._hv_mgr = mgr     # keep the stub alive (the session only holds what it was given)
     region = session.register_region(SIM, "https://sim.example.invalid/seed", handle=(1000 << 32) | 1000)
